@@ -7,6 +7,7 @@ import (
 	"math"
 	"strconv"
 	"strings"
+	"unicode"
 	"unicode/utf16"
 
 	"github.com/woodsbury/jmespath/internal/lexer"
@@ -2412,13 +2413,13 @@ func parseQuotedIdentifier(s string) (string, error) {
 					return "", &invalidQuotedStringError{s}
 				}
 
-				if v[0] != '\\' && v[1] != 'u' {
+				if v[0] != '\\' || v[1] != 'u' {
 					return "", &invalidQuotedStringError{s}
 				}
 
 				var r2 rune
 				for _, c := range v[2:6] {
-					if c >= 0 && c <= '9' {
+					if c >= '0' && c <= '9' {
 						r2 = r2*16 + rune(c-'0')
 					} else if c >= 'a' && c <= 'f' {
 						r2 = r2*16 + rune(c-'a'+10)
@@ -2430,6 +2431,10 @@ func parseQuotedIdentifier(s string) (string, error) {
 				}
 
 				r = utf16.DecodeRune(r, r2)
+				if r == unicode.ReplacementChar {
+					return "", &invalidQuotedStringError{s}
+				}
+
 				v = v[6:]
 			}
 
